@@ -83,6 +83,10 @@ func SeqHeader2Annexb(isH264 bool, payload []byte) ([]byte, error) {
 	if isH264 {
 		return avc.SpsPpsSeqHeader2Annexb(payload)
 	}
+	// enhanced rtmp
+	if len(payload) > 0 && payload[0]&0x80 != 0 {
+		return hevc.VpsSpsPpsEnhancedSeqHeader2Annexb(payload)
+	}
 	return hevc.VpsSpsPpsSeqHeader2Annexb(payload)
 }
 
